@@ -278,10 +278,64 @@ static void p0_run(uint64_t idx, vh_rng_t * rng) {
     if (m.responders >= 2 && vh_want_sample()) vh_sample("\"%s\" [%s] -> \"%s\"", vh_esc(m.text.p, m.text.len), vh_buf_cstr(&m.shape), vh_esc(m.expect.p, m.expect.len));
 }
 
+/* ---- phase 1: a parse that never finishes, and a parse started from the flush callback ---------------------------------------------------
+ * (a) IEEE 488.2 device clear while a handler is busy: the handler does not return (longjmp to the main loop, a C++ exception, a cancelled
+ *     connection thread), the application discards the pending input and goes on using the context. (b) The flush callback hands the next
+ *     line to the parser at once (tail re-entrancy: nothing of the outer call is touched afterwards). In both cases the messages that follow
+ *     are framed like any other. */
+#include <setjmp.h>
+static jmp_buf p1_jmp; static int p1_armed; static scpi_t * p1_ctx;
+static void p1_abandon_hook(scpi_t * context, int stage) { if (p1_armed && context == p1_ctx && stage == 1) { p1_armed = 0; longjmp(p1_jmp, 1); } }
+static int p1_in_flush; static vh_buf_t p1_tail;
+static void p1_flush_hook(scpi_t * context) {
+    static char line[] = "Q1?;C1;Q2?\n";
+    if (p1_in_flush || context != p1_ctx) return;
+    p1_in_flush = 1; SCPI_Parse(context, line, (int) (sizeof line - 1)); p1_in_flush = 2;
+}
+static uint64_t p1_count(int thorough) { return vh_scaled(thorough ? 40000 : 4000); }
+static void p1_run(uint64_t idx, vh_rng_t * rng) {
+    static msg_t m; vh_ctx_t * v; static char first[] = "Q1?;Q2?;Q3?\n";
+    gen_message(rng, &m);
+    g_status_on = 0;
+    v = new_ctx(); v->sigs = sigs; v->nsigs = NQ + NC; p1_ctx = v->ctx;
+    vh_case_desc("%s, then message \"%s\"", (idx & 1) ? "parse started from the flush callback" : "handler that never returns + device clear", vh_esc(m.text.p, m.text.len));
+    if (!(idx & 1)) {
+        /* (a) */
+        vh_nested_hook = p1_abandon_hook; p1_armed = 1;
+        if (setjmp(p1_jmp) == 0) { SCPI_Input(v->ctx, first, (int) (sizeof first - 1)); p1_armed = 0; }
+        vh_nested_hook = NULL;
+        vh_device_clear(v);
+        run_message(v, &m, 0, "after a handler left its parse by longjmp and the application cleared the input");
+        vh_count("abandoned.message_after_a_parse_that_never_finished", 1);
+    } else {
+        /* (b): the outer message is m; the line parsed from the flush callback answers 15;"m" behind it */
+        const char * key; size_t el;
+        vh_ctx_clear_capture(v);
+        p1_in_flush = 0; vh_on_flush_cb = p1_flush_hook;
+        { vh_buf_t t = { 0, 0, 0 }; vh_buf_add(&t, m.text.p, m.text.len); vh_buf_adds(&t, "\n"); vh_input(v, t.p, t.len); vh_buf_free(&t); }
+        vh_on_flush_cb = NULL;
+        vh_buf_reset(&p1_tail); vh_buf_add(&p1_tail, m.expect.p, m.expect.len);
+        if (m.responders) { static const vh_sig_t * dummy; (void) dummy; }
+        el = m.expect.len;
+        if (p1_in_flush == 2) {
+            /* what Q1?;C1;Q2? answers with this case's signatures is whatever the model says for those units: compare only the outer part
+             * and the framing of the tail (starts after the outer response, ends with one terminator) */
+            const char * out = v->out.p ? v->out.p : ""; size_t le = strlen(SCPI_LINE_ENDING);
+            if (v->out.len < el || memcmp(out, m.expect.p ? m.expect.p : "", el) != 0) key = "C06:bytes-differ";
+            else if (v->out.len > el && (v->out.len - el < le || memcmp(out + v->out.len - le, SCPI_LINE_ENDING, le) != 0)) key = "C06:terminator-missing";
+            else key = NULL;
+            if (key) vh_violation(key, "message \"%s\" with the next line parsed from the flush callback: wrote \"%s\", the outer response must be \"%s\"", vh_esc(m.text.p, m.text.len), vh_esc(v->out.p, v->out.len), vh_esc(m.expect.p, m.expect.len));
+            vh_count("reentrant.line_parsed_from_the_flush_callback", 1);
+        } else if (m.responders) vh_violation("C06:flush-missing", "message \"%s\" responds but the flush callback was not called", vh_esc(m.text.p, m.text.len));
+        SCPI_ErrorClear(v->ctx);
+    }
+    vh_ctx_free(v);
+}
+
 int main(int argc, char ** argv) {
-    static const vh_phase_t phases[] = { { "messages", p0_count, p0_run } };
-    vh_scribble_chunk_in_callbacks(1); vh_decoy_enable(7); vh_require("decoy.messages_run_on_a_second_context"); vh_require("items.long_ascii_array"); vh_require("status.service_request_raised_during_the_message"); vh_require("nested.other_context_parsed_before_first_result"); vh_require("nested.other_context_parsed_on_handler_entry"); vh_require("msg.with_response"); vh_require("msg.nothing_responds"); vh_require("msg.two_or_more_responders");
+    static const vh_phase_t phases[] = { { "messages", p0_count, p0_run }, { "abandoned and re-entered parses", p1_count, p1_run } };
+    vh_scribble_chunk_in_callbacks(1); vh_decoy_enable(7); vh_require("decoy.messages_run_on_a_second_context"); vh_require("items.long_ascii_array"); vh_require("abandoned.message_after_a_parse_that_never_finished"); vh_require("reentrant.line_parsed_from_the_flush_callback"); vh_require("status.service_request_raised_during_the_message"); vh_require("nested.other_context_parsed_before_first_result"); vh_require("nested.other_context_parsed_on_handler_entry"); vh_require("msg.with_response"); vh_require("msg.nothing_responds"); vh_require("msg.two_or_more_responders");
     vh_require("shape.responder_then_silent_unit"); vh_require("shape.silent_unit_then_responder"); vh_require("shape.fails_after_partial_output");
     vh_require("shape.query_emitting_nothing"); vh_require("shape.query_failing_before_output"); vh_require("shape.single_partial_failure");
-    return vh_main(argc, argv, "C06", phases, 1);
+    return vh_main(argc, argv, "C06", phases, 2);
 }
